@@ -198,7 +198,8 @@ def gen_modgraph(rng, profile=None):
         if rng.random() < 0.5:
             # two external procedures with equal names cannot coexist; equal names as *internal*
             # procedures of different hosts can
-            extras.append({"kind": "hosts", "name": "%shost" % px, "tr": tr(), "n": rng.randint(2, 3)})
+            extras.append({"kind": "hosts", "name": "%shost" % px, "tr": tr(), "n": rng.randint(2, 3),
+                           "inner": "%sinner" % px})
 
     # distribute units over files
     units = [("module", m["name"]) for m in mods] + [("program", p["name"]) for p in progs] + \
@@ -333,13 +334,15 @@ def render_extra(e, rng):
                 "  common /cb_%s/ bq_%s" % (e["name"], e["name"]), "  data bq_%s /1/" % e["name"],
                 "end block data %s" % e["name"]]
     if k == "nlprog":
-        return ["program %s" % e["name"], "  !! %s" % e["tr"], "  integer :: na, nb", "  namelist /nl_%s/ na, nb" % e["name"],
-                "  na = 1", "end program %s" % e["name"]]
+        n = e["name"]
+        return ["program %s" % n, "  !! %s" % e["tr"], "  integer :: %s_na, %s_nb" % (n, n),
+                "  namelist /nl_%s/ %s_na, %s_nb" % (n, n, n), "  %s_na = 1" % n, "end program %s" % n]
     if k == "hosts":
         L = []
         for i in range(e["n"]):
-            L += ["subroutine %s%d()" % (e["name"], i), "  !! %s h%d" % (e["tr"], i), "  call inner()", "contains",
-                  "  subroutine inner()", "    !! inner of %d" % i, "  end subroutine inner",
+            inner = e.get("inner", "inner")
+            L += ["subroutine %s%d()" % (e["name"], i), "  !! %s h%d" % (e["tr"], i), "  call %s()" % inner, "contains",
+                  "  subroutine %s()" % inner, "    !! inner of %d" % i, "  end subroutine %s" % inner,
                   "end subroutine %s%d" % (e["name"], i), ""]
         return L
     raise ValueError(k)
